@@ -33,10 +33,11 @@ func init() {
 		r.floor("R5", 8)
 	}, checkC24)
 	register("C32", func(r *Report) {
-		r.Explanation = "Sibling comparison of every resolver site in the client library, the gateway and the CLI tools: (R1) ID -> name uses PredefinedTopics.GetTopicName(<own client id>, <the packet's topic ID>) for predefined IDs and DecodeShortTopic(<the packet's topic ID>) for short ones; name -> ID uses GetTopicID(<own client id>, name) and EncodeShortTopic(name) under IsShortTopic(name); no site swaps arguments or uses another function; (R2) 'own client id' is the same identity on both ends: the gateway's comes from the CONNECT packet's ClientID, the client's CONNECT ClientID comes from cfg.ClientID, which is also the identity of every client-side lookup, and the CLI tools look up with the ID they configure; (R3) the two lookup functions are mutually consistent (C05's rules, re-run here) and the short codec is a byte-exact bijection (C21-R6, re-run here). Not decided: that both ends were given the same configuration (the operator's responsibility)."
+		r.Explanation = "Sibling comparison of every resolver site in the client library, the gateway and the CLI tools: (R1) ID -> name uses PredefinedTopics.GetTopicName(<own client id>, <the packet's topic ID>) for predefined IDs and DecodeShortTopic(<the packet's topic ID>) for short ones; name -> ID uses GetTopicID(<own client id>, name) and EncodeShortTopic(name) under IsShortTopic(name); no site swaps arguments or uses another function; (R2) 'own client id' is the same identity on both ends: the gateway's comes from the CONNECT packet's ClientID, the client's CONNECT ClientID comes from cfg.ClientID, which is also the identity of every client-side lookup, and the CLI tools look up with the ID they configure; (R3) the two lookup functions are mutually consistent (C05's rules, re-run here) and the short codec is a byte-exact bijection (C21-R6, re-run here); (R4) the gateway uses the results lawfully: the (topic-ID type, ID) pairing of PUBLISHes to the client (C02-R2) and the producers of the topic name of PUBLISHes to the broker (C01-R2), re-run here - a cache or another source in between is a violation. Not decided: that both ends were given the same configuration (the operator's responsibility)."
 		r.floor("R1", 8)
 		r.floor("R2", 3)
 		r.floor("R3", 18)
+		r.floor("R4", 3)
 	}, checkC32)
 }
 
@@ -768,6 +769,18 @@ func (c *Ctx) checkConnectWillAndFlags(r *Report, gm *gwModel) {
 // C32
 
 func checkC32(c *Ctx, r *Report) {
+	checkC32Sites(c, r)
+	// R3
+	importRules(c, r, "C05", map[string]string{"R1": "R3", "R2": "R3"})
+	importRules(c, r, "C21", map[string]string{"R6": "R3"})
+	// R4: what the gateway does with the results (pairing of topic-ID type and ID in PUBLISHes to the
+	// client, lawful producers of the topic name of PUBLISHes to the broker)
+	importRules(c, r, "C02", map[string]string{"R2": "R4"})
+	importRules(c, r, "C01", map[string]string{"R2": "R4"})
+}
+
+// checkC32Sites: R1 and R2 of C32 (resolver sites and the identity they use).
+func checkC32Sites(c *Ctx, r *Report) {
 	ownID := func(v ssa.Value, rel string) (bool, string) {
 		os := c.origins(v)
 		if len(os) != 1 {
@@ -938,9 +951,6 @@ func checkC32(c *Ctx, r *Report) {
 		}
 		r.cond(okc && seen, "R2", key, c.pos(f.Pos()), "the tool looks topics up with the client ID it configures", "the tool looks predefined topics up with another client ID than the one it connects with")
 	}
-	// R3
-	importRules(c, r, "C05", map[string]string{"R1": "R3", "R2": "R3"})
-	importRules(c, r, "C21", map[string]string{"R6": "R3"})
 }
 
 // pktTopicIDLoad: v is a load of the TopicID field of a packets1 packet.
